@@ -168,9 +168,12 @@ class C13(TraceCheck):
                 elif op == "splitlines":
                     side = fa.splitlines(bool(n % 2))
                 elif op == "ljust":
-                    side = [fa.ljust(len(fa) + 2)]
+                    # wider than, as wide as and narrower than the text (nothing to pad: the library may hand the operand back)
+                    w = [len(fa) + 2, len(fa), len(fa) - 1, 1, 0, len(fa) + 5][(n + m) % 6]
+                    side = [fa.ljust(w) if n % 2 else fa.ljust(w, " ")]
                 elif op == "rjust":
-                    side = [fa.rjust(len(fa) + 1, "*")]
+                    w = [len(fa) + 1, len(fa) - 1, 0, len(fa)][(n + m) % 4]
+                    side = [fa.rjust(w, "*") if m % 2 else fa.rjust(w)]
                 elif op == "newstr":
                     side = [fa.copy_with_new_str("zz")]
                 elif op == "wslice":
